@@ -90,8 +90,13 @@ func workerMain() {
 				os.Stderr.Write(buf[:n])
 				os.Exit(3)
 			})
+			t0 := time.Now()
 			c.Obs = runOp(&c)
 			timer.Stop()
+			if c.Obs != nil {
+				c.Obs["ms"] = time.Since(t0).Milliseconds()
+				c.Obs["budget_ms"] = to.Milliseconds()
+			}
 			b, _ := json.Marshal(&c)
 			out.Write(b)
 			out.WriteByte('\n')
